@@ -16,7 +16,7 @@ RULE = (
     "invocations carrying a fault plan (step fail_before/fail_after/torn EFBIG/torn SIGXFSZ on a dirty edge, "
     "driver torn/killed, whole invocation killed after k edges, source edited during the build), then ONE "
     "fault-free invocation, then a clean build of the same inputs at the same path as reference. "
-    "thorough adds an exhaustive single-fault sweep over fixed base states. "
+    "thorough adds an exhaustive single-fault sweep over fixed base states (quick: a reduced sweep over one base state chosen by the seed). "
     "distinct = distinct (op kinds, per-invocation set of (rule, dirtiness reason), fired fault kinds); "
     "non-trivial = the final invocation met state left by at least one earlier invocation."
 )
@@ -471,18 +471,20 @@ def sweep_base_ops(fmt):
     return ops, argv2, "Font" + gen.ext_for(fmt)
 
 
-def sweep_cases(seed, scale):
-    """needs the edge list of each base state: obtained by a probe run."""
+def sweep_cases(seed, scale, mini=False):
+    """needs the edge list of each base state: obtained by a probe run.
+    mini (quick tier): one base state, chosen by the seed, and a reduced fault set"""
     cases = []
     probes = []
-    for fmt in sweep_bases(seed, scale):
+    bases = [SWEEP_FORMATS[seed % len(SWEEP_FORMATS)]] if mini else sweep_bases(seed, scale)
+    for fmt in bases:
         ops, argv2, font = sweep_base_ops(fmt)
         ops = ops + [{"op": "invoke", "cwd": ".", "argv": argv2, "build_dir": "build", "label": "probe",
                       "sched": {"j": 1, "policy": "manifest", "seed": 0, "exec_at": "finish"}}]
         probes.append({"id": "c09-sweep-probe-" + fmt, "root_id": "c09/sweep/probe-" + fmt, "hashseed": 0,
                        "keep_trace": False, "ops": ops})
     res = orch.run_jobs(probes, tag="probe")
-    for fmt in sweep_bases(seed, scale):
+    for fmt in bases:
         r = res["c09-sweep-probe-" + fmt]
         inv = orch.invokes(r)[-1]
         steps = [s for s in inv["ninja"][0]["steps"] if "out" in s]
@@ -496,16 +498,17 @@ def sweep_cases(seed, scale):
         plans = []
         for s in steps:
             out = s["out"]
-            plans.append({"faults": [{"edge": out, "kind": "fail_before"}]})
+            if not mini:
+                plans.append({"faults": [{"edge": out, "kind": "fail_before"}]})
             plans.append({"faults": [{"edge": out, "kind": "fail_after"}]})
-            for kind in ("torn_efbig", "torn_kill"):
-                for frac in (0.0, 0.5, 1.0):
+            for kind in (("torn_kill",) if mini else ("torn_efbig", "torn_kill")):
+                for frac in ((0.5,) if mini else (0.0, 0.5, 1.0)):
                     plans.append({"faults": [{"edge": out, "kind": kind, "frac": frac, "n_fallback": 10, "_sweep_frac": frac}]})
-        for kind in ("torn_efbig", "torn_kill"):
-            for n in (0, 300, 1200, 2500, 6000):
+        for kind in (("torn_kill",) if mini else ("torn_efbig", "torn_kill")):
+            for n in ((300, 2500) if mini else (0, 300, 1200, 2500, 6000)):
                 plans.append({"driver_fault": {"kind": kind, "n": n}})
         plans.append({"driver_fault": {"kind": "fail_before", "n": 0}})
-        for k in range(0, len(steps) + 1, 2):
+        for k in range(0, len(steps) + 1, 4 if mini else 2):
             plans.append({"kill_after": {"edges": k, "inflight": "torn"}})
         for pi, plan in enumerate(plans):
             ops, argv2, font = sweep_base_ops(fmt)
@@ -538,6 +541,8 @@ def gen_cases(seed, tier, scale=1.0):
         c["jobs"][0]["keep_trace"] = False
     if tier == "thorough":
         cases += sweep_cases(seed, scale)
+    elif scale >= 1.0:
+        cases += sweep_cases(seed, scale, mini=True)
     return cases
 
 
